@@ -50,7 +50,11 @@ func checkC02(e *Env) {
 		} else {
 			e.R.Fail("TABLE", "EncodeBytesUint:negative", e.P.Pos(eb.Pos()), "a negative value is encoded")
 		}
-		e.requireStore("TABLE", eb, "make([]byte,param:size)[rangeidx]", "conv(((param:n >> conv((((param:size - rangeidx) - const:1) * const:8))) & const:255))", "byte i = (n >> 8*(size-i-1)) & 0xff (big-endian)")
+		// byte i = low byte of n >> 8*(size-1-i): index loop or range loop, the
+		// exponent written either way round, with or without the redundant & 0xff
+		tI := "{rangeidx|phi((↺ + const:1)|const:0)}"
+		tShift := "conv({(((param:size - " + tI + ") - const:1) * const:8)|(((param:size - const:1) - " + tI + ") * const:8)})"
+		e.requireStore("TABLE", eb, "make([]byte,param:size)[{rangeidx|_}]", "conv({(param:n >> "+tShift+")|((param:n >> "+tShift+") & const:255)})", "byte i = (n >> 8*(size-i-1)) & 0xff (big-endian)")
 		e.requireResult("TABLE", eb, ok0, 0, "make([]byte,param:size)", "a buffer of exactly size bytes")
 	}
 
